@@ -82,8 +82,11 @@ class Eval:
                 v = _variant(x)
                 if v:
                     self.mentioned.setdefault(v[0], set()).add(v[1])
-            if isinstance(x, dict) and x.get("k") in ("pvariant", "ppath", "pat_path", "tuple_struct", "pstruct"):
-                pass
+            if isinstance(x, dict) and x.get("k") in ("ts", "ppath") and isinstance(x.get("res"), dict):
+                # variant patterns (also those of `if let` / `let .. else`, which are not match arms)
+                pth = x["res"].get("path") or ""
+                if "::" in pth and pth.rsplit("::", 1)[1][:1].isupper():
+                    self.mentioned.setdefault(pth.rsplit("::", 1)[0], set()).add(pth.rsplit("::", 1)[1])
         for m in H.walk(self.body):
             if isinstance(m, dict) and m.get("k") == "match":
                 for a in m["arms"]:
